@@ -90,6 +90,42 @@ def enumerate_cases(tier):
                         {"user": f'say "{fakes.mk_user(1)}" $now', "route": "llm", "in": pat, "out": ["accept"], "body": "second answer"},
                     ]
                     yield {"config": cfg, "turns": turns, "api": "sync"}
+    # hostile user texts, one per conversation, followed by a plain turn (a text must not poison the conversation)
+    for v in (1, 2):
+        for dialog in (False, True):
+            cfg = {"v": v, "in": ["check", "check"], "out": [], "dialog": dialog, "exc": False}
+            if v == 2:
+                cfg["style"] = "config"
+            else:
+                cfg["ret"] = 0
+            for noise in HOSTILE_TEXTS:
+                for second in (["accept", "accept"], ["accept", "reject"]):
+                    turns = [
+                        {"user": f"{fakes.mk_user(0)} {noise}", "route": "llm", "in": ["accept", "accept"], "out": [], "body": "first answer"},
+                        {"user": f"{fakes.mk_user(1)} and now", "route": "llm", "in": second, "out": [], "body": "second answer"},
+                    ]
+                    yield {"config": cfg, "turns": turns, "api": "sync"}
+
+
+BS = chr(92)  # backslash
+HOSTILE_TEXTS = [
+    'say "hi"',
+    "it's",
+    "{{ x }}",
+    "{% if %}",
+    "{$x}",
+    "$user_message",
+    "$config",
+    "two" + chr(10) + "lines",
+    "C:" + BS + "users" + BS + "new",  # \u and \n as two-character sequences
+    "tail" + BS,
+    BS + "x",
+    "%s %d",
+    "<<<x>>>",
+    "a: b",
+    "'''",
+    'user "x"' + chr(10) + "  ask y",
+]
 
 
 # ------------------------------------------------------------------------------------------------
@@ -107,6 +143,7 @@ def _check(case, obs):
         labels.append("shipped-self-check-input")
     nt = False
     rewritten_before = []  # (turn, original marker) of earlier turns whose text was rewritten
+    dead_after = None
     for t, (spec, o) in enumerate(zip(case["turns"], obs.turns)):
         if o["raised"]:
             if pipeline.EVENT_BUDGET in o["raised"]:
@@ -117,7 +154,9 @@ def _check(case, obs):
         what = f"v{v} turn {t} (verdicts {spec['in']})"
         prob = pipeline.chain_problem(m["calls"], entries, what)
         if prob:
-            raise Violation("input-rail-chain", prob, {"turn": t})
+            raise Violation("input-rail-chain", prob, {"turn": t, "v": v, "no_rail_ran": not entries, "dead_after_backslash_turn": dead_after})
+        if BS in spec["user"] and dead_after is None and not o["llm"] and not pipeline.reply_text(o) and m["blocked"] is None:
+            dead_after = t  # F14 signature: the turn of a text with a backslash produced neither an LLM call nor a reply
         gen = [c for c in o["llm"] if c["task"] in GENERATION_TASKS]
         # (1) rails come first: every input-rail invocation precedes the first dialog/generation step
         later = [c["seq"] for c in gen] + [e["seq"] for e in o["trace"] if e["cat"] in ("dialog", "out", "ret")]
@@ -203,3 +242,14 @@ def _check(case, obs):
 
 def prop(case):
     return pipeline.run_checked(case, _check)
+
+
+def known(case, violation):
+    """C01-F14: Colang 2.x, a user text with a backslash sequence that is not a valid escape of a Python literal
+    (backslash-u, backslash-x, a trailing backslash ...) raises in `_log_action_or_intents` when `user said ...`
+    finishes; the exception escapes run_to_completion, the turn gets no reply and every later turn is dead: no input
+    rail runs any more."""
+    d = violation.detail or {}
+    if violation.kind == "input-rail-chain" and d.get("v") == 2 and d.get("no_rail_ran") and d.get("dead_after_backslash_turn") is not None:
+        return "C01-F14"
+    return None
